@@ -363,7 +363,7 @@ class EchoCacheImpl:
         pass
 
 
-def first_use_case(data, ev, d, fails):
+def first_use_case(data, ev, d, fails, chooser=None, tag=None):
     """two or three threads render through ONE fresh lookup / Template for the first time: cached defs with their own
     cache_* arguments, relative <%include> / <%inherit> / <%namespace file> from a sub-directory (same names also exist in
     the root), inheritable namespaces. Every render must equal the same render run alone on a fresh lookup."""
@@ -403,7 +403,7 @@ def first_use_case(data, ev, d, fails):
     lk = fresh()
     files = {mako.runtime.__file__, mako.cache.__file__, mako.lookup.__file__}
     mods = {"_sub_page_html", "_sub_base_html", "_sub_lib_html", "_sub_part_html"}
-    sch = S.Scheduler(S.ByteChooser(data[1:], switch_percent=10 + data[0] % 20), trace=lambda fn: fn in files or fn in mods, max_steps=400000)
+    sch = S.Scheduler(chooser or S.ByteChooser(data[1:], switch_percent=10 + data[0] % 20), trace=lambda fn: fn in files or fn in mods, max_steps=400000)
 
     def worker(i):
         def run():
@@ -414,6 +414,8 @@ def first_use_case(data, ev, d, fails):
         return run
 
     case = {"part": "first-use", "data": list(data)}
+    if tag is not None:
+        case["sweep"] = tag
     try:
         res, errs = sch.run([worker(i) for i in range(nthreads)])
     except S.Deadlock as e:
@@ -424,7 +426,9 @@ def first_use_case(data, ev, d, fails):
             f = Failure(case, "thread %d rendered %r concurrently (first use of the lookup) but %r alone; %d preemptions" % (i, res.get(i), solo[i], sch.preemptions),
                         "first-use-differs-from-solo")
             fails.setdefault(f.key, f)
-    ev.case(key=[list(data[:1]), [c[1] for c in sch.choices]], nontrivial=sch.preemptions >= 1, labels=("first-use", "threads:%d" % nthreads))
+    ev.case(key=[list(data[:1]), [c[1] for c in sch.choices]], nontrivial=sch.preemptions >= 1,
+            labels=("first-use" if tag is None else "first-use-sweep", "threads:%d" % nthreads))
+    first_use_case.last_decisions = len(sch.choices)
     if sch.preemptions >= 2:
         ev.sample({"scenario": "first-use", "templates": T, "threads": nthreads, "preemptions": sch.preemptions, "solo": solo}, "first-use")
 
@@ -480,8 +484,26 @@ def shard_random(task):
     return ev, list(fails.values())
 
 
+def shard_first_use_sweep(task):
+    """every schedule with exactly ONE preemption of thread `first` (after its k-th scheduling decision) for the first-use scenario"""
+    first, lo, hi, stride = task
+    core.setup_repo()
+    ev = core.Evidence()
+    fails = {}
+    with core.TempDir() as d:
+        k = lo
+        while k < hi:
+            first_use_case(bytes([0]) + bytes(8), ev, d, fails, chooser=S.OnePreemptionChooser(k, first), tag=[first, k])
+            if k > getattr(first_use_case, "last_decisions", 0) + 2:
+                break  # thread `first` finished before the preemption point: nothing new beyond
+            k += stride
+    return ev, list(fails.values())
+
+
 def run(ctx):
     tasks = []
+    step = 200
+    ctx.pmap(shard_first_use_sweep, [(first, lo, lo + step, 1) for first in (0, 1) for lo in range(0, 2400, step)])
     for kind in KINDS:
         for threads in (2, 3):
             for variant in range(ctx.pick(2, 6)):
@@ -496,7 +518,8 @@ def replay(case):
         if case.get("part") == "first-use":
             ev = core.Evidence()
             fails = {}
-            first_use_case(bytes(case["data"]), ev, d, fails)
+            sw = case.get("sweep")
+            first_use_case(bytes(case["data"]), ev, d, fails, chooser=S.OnePreemptionChooser(sw[1], sw[0]) if sw else None, tag=sw)
             for f in fails.values():
                 return f
             return None
